@@ -3,7 +3,7 @@
 // Package vlib holds the fixtures shared by all verification harnesses: case recorder (evidence counters),
 // known-findings matcher, port allocator, scripted targets, recording relay, certificate factory, pair builder
 // and the simulated DNS path.
-package vlib
+package vcore
 
 import (
 	"encoding/json"
